@@ -2,10 +2,10 @@
 SPEC = dict(
     title="Upgrading old snapshot formats is crash-safe",
     pkg="./snapshot", files=["snapshot/c08_verif_test.go"],
-    rule="5 old-format nodes (the checked-in v7 and v8 fixtures; generated v8 directories with 1 and 3 snapshots, the newest by term rather than by index; "
-         "a generated v7 directory with an older snapshot lacking state.bin), real SQLite data; thorough adds 50 random v7/v8 directories with 1-3 snapshots. "
+    rule="quick: 3 old-format nodes (the checked-in v7 and v8 fixtures; a generated v8 directory with 3 snapshots, the newest by term rather than by index), real SQLite data; "
+         "thorough: 5 nodes (adds a 1-snapshot v8 directory and a generated v7 directory with an older snapshot lacking state.bin) plus 12 random v7/v8 directories with 1-3 snapshots. "
          "The real start-up sequence Upgrade7To8 -> Upgrade8To10 -> NewStore runs in a child process that is SIGKILLed (strace inject) just before its K-th "
-         "mkdirat/renameat/unlinkat/rmdir/fsync/ftruncate (thorough: also write/pwrite64/openat) for EVERY K; every 5th image (thorough: every image) is crashed "
+         "mkdirat/renameat/unlinkat/rmdir/fsync/ftruncate (thorough: also write/pwrite64) for EVERY K; every 7th image (thorough: every image of the 5 nodes, every 3rd of the random ones) is crashed "
          "again during its recovery; the sequence is then run to the end. A case is non-trivial when the (first) kill is after the first mutation of the "
          "directory and before the last one; distinct by store + kill points",
     exhaustive=False,
